@@ -447,7 +447,8 @@ type c04Req struct {
 }
 
 func c04Requests() (qs []c04Req) {
-	urls := []string{"http://example.org/ads", "https://sub.example.org/x?ads=1", "http://x.com/ads", "http://ads.example.com/", "http://EXAMPLE.org/ADS", "http://1.2.3.4/ads"}
+	urls := []string{"http://example.org/ads", "https://sub.example.org/x?ads=1", "http://x.com/ads", "http://ads.example.com/", "http://EXAMPLE.org/ADS", "http://1.2.3.4/ads",
+		"http://user:pw@example.org/ads"} // the pattern is applied to the URL as it is, user information included
 	srcs := []string{"", "http://example.org/", "http://sub.example.org/p", "http://notexample.org/", "http://example.com/", "http://google.com/", "https://www.google.co.uk/", "http://x.google.agoogle.com/", "http://agoogle.com/", "http://google.unknowntldx/", "http://a.sub.example.org/", "http://co.uk/", "http://example.local/", "http://www.example.local/", "http://shop.example.com/", "http://a.shop.example.com/"}
 	types := []rules.RequestType{rules.TypeScript, rules.TypeImage, rules.TypeDocument, rules.TypeSubdocument}
 	for _, u := range urls {
@@ -784,6 +785,31 @@ func c04Run(c *Ctx, qs []c04Req, only string) {
 		}
 	}
 	perSlot := map[string]int64{}
+	// colliding values: two host names with the same 32-bit hash as $domain and $denyallow values of different
+	// rules, parsed one after the other in this process (whatever the first rule left behind, the second is its own)
+	if only == "" {
+		hA, hB := c01GetAlphabet().hA, c01GetAlphabet().hB
+		var cq []c04Req
+		for _, src := range []string{"http://" + hA + "/", "http://" + hB + "/", "http://sub." + hB + "/p", "http://other.example.net/"} {
+			for _, u := range []string{"http://example.org/ads", "http://" + hA + "/ads", "http://" + hB + "/ads"} {
+				cq = append(cq, c04Req{q: rules.NewRequest(u, src, rules.TypeScript), desc: fmt.Sprintf("url=%s src=%s type=script", u, src)})
+			}
+		}
+		for _, pair := range [][2]string{{hA, hB}, {"~" + hA, hB}, {hA + "|x.com", hB + "|x.com"}, {hB, "~" + hB}} {
+			for _, v := range pair {
+				var dom []nv
+				for _, x := range strings.Split(v, "|") {
+					dom = append(dom, nv{strings.TrimPrefix(x, "~"), strings.HasPrefix(x, "~")})
+				}
+				e1, _ := c04CheckRule(c, c04Rule{pattern: "/ads", domains: dom}, cq, "colliding-values")
+				evals += e1
+				if !strings.Contains(v, "~") && !strings.Contains(v, "|") {
+					e2, _ := c04CheckRule(c, c04Rule{pattern: "/ads", domains: []nv{{"example.net", false}, {hA, false}, {hB, false}}, denyallow: []string{v}}, cq, "colliding-values")
+					evals += e2
+				}
+			}
+		}
+	}
 	c.parallel(len(jobs), func(i int) {
 		if only != "" && jobs[i].r.text() != only {
 			return
